@@ -7,7 +7,7 @@
    oracle answer, C04_Reduce.v) and the step-length kernel of the Newton iteration (C04_Step.v) inside the model. *)
 From Coq Require Import List ZArith QArith Qminmax Qabs Bool Lia Lqa.
 From LNGen Require Import Src_c04.
-From LN Require Import C04_Defs C04_Proofs C04_Reduce C04_ReduceProofs C04_Step C04_StepProofs C04_Iter_Defs C04_Iter.
+From LN Require Import C04_Defs C04_Proofs C04_Reduce C04_ReduceProofs C04_Step C04_StepProofs C04_Iter_Defs C04_Iter C04_Rest_Defs C04_Rest.
 Import ListNotations.
 Local Open Scope Q_scope.
 
@@ -527,3 +527,354 @@ Qed.
 (* a pass that ends in done() with `converged`: the optimum itself with a tiny gap, a null direction, stage 1 exhausted *)
 Example C04_nonvacuous_iter_precise : precise_test 1 1 4 4 9 9 (1 # 10) = true /\ precise_test 1 0 4 4 9 9 (1 # 10) = false.
 Proof. split; vm_compute; reflexivity. Qed.
+
+(* ==== the rest of the solver (C04_Rest_Defs.v): solve_without_inequality, make_strictly_feasible / make_x0, and the Newton
+   iteration WITHOUT the hypothesis that the LDLT answer solves its system ============================================== *)
+
+(* ---- (1) programs without inequalities: ONE KKT solve, status from `valid && aprox` ------------------------------------- *)
+(* the system the code assembles for `program.solve(zero, c, -b)` is stationarity + feasibility: Q x + A' v = -c, A x = b *)
+Theorem C04_eq_kkt_system : forall P x v, wf P -> length x = dim P -> length v = length (pA P) ->
+  (veq (mv (eq_lmat P) (x ++ v)) (eq_lvec P) <->
+   veq (vadd (qmv P x) (mtv (dim P) (pA P) v)) (vopp (pc P)) /\ veq (mv (pA P) x) (pb P)).
+Proof. exact eq_kkt_system. Qed.
+Print Assumptions C04_eq_kkt_system.
+
+(* sufficiency of KKT: Q psd and an answer that solves the system exactly => x minimises the objective over {A x = b} *)
+Theorem C04_eq_kkt_sufficient : forall P x v, wf P -> psd P -> pG P = [] -> length x = dim P -> length v = length (pA P) ->
+  veq (mv (eq_lmat P) (x ++ v)) (eq_lvec P) -> is_min P x.
+Proof. exact eq_kkt_sufficient. Qed.
+Print Assumptions C04_eq_kkt_sufficient.
+
+(* `converged` iff the residual is finite and Eigen's isApprox accepts the answer: |lmat z - lvec|^2 <= eps2^2 min(|lmat z|^2, |lvec|^2) *)
+Theorem C04_eq_converged_iff : forall P mufx miu eps2 ans,
+  es_status (eq_solve P mufx miu eps2 ans) = st_converged <->
+  ea_valid ans = true /\
+  sumsq (eq_sys_residual P (ea_x ans) (ea_v ans))
+    <= eps2 * eps2 * Qmin (sumsq (mv (eq_lmat P) (ea_x ans ++ ea_v ans))) (sumsq (eq_lvec P)).
+Proof. exact eq_converged_iff. Qed.
+Print Assumptions C04_eq_converged_iff.
+
+(* the other two statuses: `failed` iff not finite, `unfeasible` iff finite and not accepted; nothing else is ever assigned *)
+Theorem C04_eq_status_other : forall P mufx miu eps2 ans,
+  (es_status (eq_solve P mufx miu eps2 ans) = st_failed <-> ea_valid ans = false) /\
+  (es_status (eq_solve P mufx miu eps2 ans) = 3%Z <-> ea_valid ans = true /\ es_aprox (eq_solve P mufx miu eps2 ans) = false) /\
+  (es_status (eq_solve P mufx miu eps2 ans) = st_converged \/ es_status (eq_solve P mufx miu eps2 ans) = st_failed \/
+   es_status (eq_solve P mufx miu eps2 ans) = 3%Z).
+Proof. exact eq_status_other. Qed.
+Print Assumptions C04_eq_status_other.
+
+(* the reported objective is the caller's objective at x, the stored residuals are those of the returned (x, v) (no stale numbers here) *)
+Theorem C04_eq_objective_reported : forall dQ dA dG P miu eps2 ans, 0 < dQ ->
+  s_fx (es_res (eq_solve (normalizeP dQ dA dG P) dQ miu eps2 ans)) == objective P (ea_x ans).
+Proof. exact eq_objective_reported. Qed.
+Print Assumptions C04_eq_objective_reported.
+
+Theorem C04_eq_state_residuals : forall P mufx miu eps2 ans, pG P = [] ->
+  let st := eq_solve P mufx miu eps2 ans in
+  es_x st = ea_x ans /\ es_v st = ea_v ans /\
+  veq (s_rdual (es_res st)) (m_rdual P (ea_x ans) [] (ea_v ans)) /\
+  veq (s_rprim (es_res st)) (m_rprim P (ea_x ans)) /\
+  s_eta (es_res st) = 0 /\ s_rcent (es_res st) = [].
+Proof. exact eq_state_residuals. Qed.
+Print Assumptions C04_eq_state_residuals.
+
+(* what `converged` guarantees about the equalities: a bound relative to the right-hand side (-c, b) of the KKT system ... *)
+Theorem C04_eq_converged_rprim_bound : forall P mufx miu eps2 ans, wf P -> length (ea_x ans) = dim P ->
+  es_status (eq_solve P mufx miu eps2 ans) = st_converged ->
+  sumsq (m_rprim P (ea_x ans)) <= eps2 * eps2 * (sumsq (pc P) + sumsq (pb P)).
+Proof. exact eq_converged_rprim_bound. Qed.
+Print Assumptions C04_eq_converged_rprim_bound.
+
+(* ... hence never `converged` on an equality system that no point satisfies within that bound, whatever the LDLT answers *)
+Theorem C04_eq_never_converged_if_infeasible : forall P mufx miu eps2, wf P ->
+  (forall x, length x = dim P -> eps2 * eps2 * (sumsq (pc P) + sumsq (pb P)) < sumsq (m_rprim P x)) ->
+  forall ans, length (ea_x ans) = dim P -> es_status (eq_solve P mufx miu eps2 ans) <> st_converged.
+Proof. exact eq_never_converged_if_infeasible. Qed.
+Print Assumptions C04_eq_never_converged_if_infeasible.
+
+(* ... and on the caller's rows, after the constructor's normalisation: |a_i x - b_i|^2 <= 2 (eps2 dA)^2, dA = max(1e-3, |A|_F, |b|_2) *)
+Theorem C04_eq_converged_user_rows : forall dQ dA dG P miu eps2 ans, wf (normalizeP dQ dA dG P) -> 0 < dA -> length (ea_x ans) = dim P ->
+  sumsq (vdiv dQ (pc P)) <= 1 -> sumsq (vdiv dA (pb P)) <= 1 ->
+  es_status (eq_solve (normalizeP dQ dA dG P) dQ miu eps2 ans) = st_converged ->
+  Forall (fun t => t * t <= 2 * (eps2 * dA) * (eps2 * dA)) (m_rprim P (ea_x ans)).
+Proof. exact eq_converged_user_rows. Qed.
+Print Assumptions C04_eq_converged_user_rows.
+
+(* FALSE of the faithful model: "`converged` implies every equality within 1e-6 (1 + |b|_inf) as the property demands".
+   min x^2/2 + x s.t. 10000 x = 0: the constructor divides the row by dA = |A|_F = 10000; the answer x = 5e-9, v = -1 - 5e-9 has a
+   finite residual and passes isApprox with epsilon2 = 1e-8 (relative residual 5e-9), status converged -- but |10000 x - 0| = 5e-5.
+   (Reproduced on the real library with a double-precision LDLT answer: notes/C04.md, `equality-tolerance-vs-row-scale`.) *)
+Definition Peq_scale : program := mkP [[1]] [1] [[10000]] [0] [] [].
+Definition ans_scale : eq_answer := mkEA [1 # 200000000] [- (1) - (1 # 200000000)] true.
+
+Theorem C04_eq_converged_within_property_tolerance_refuted :
+  exists P dQ dA dG ans,
+    wf (normalizeP dQ dA dG P) /\ pG P = [] /\ length (ea_x ans) = dim P /\
+    denom_ok (1 # 1000000) 0 dQ (pQ P) (pc P) = true /\ denom_ok (1 # 1000000) 0 dA (pA P) (pb P) = true /\
+    es_status (eq_solve (normalizeP dQ dA dG P) dQ 10 (1 # 100000000) ans) = st_converged /\
+    ~ Forall (fun t => Qabs t <= (1 # 1000000) * (1 + 0)) (m_rprim P (ea_x ans)).
+Proof.
+  exists Peq_scale, 1, 10000, 1, ans_scale.
+  split; [constructor; simpl; try (right; reflexivity); repeat constructor|].
+  repeat split; try (vm_compute; reflexivity).
+  intros H. inversion H as [|t l Ht _]; subst. vm_compute in Ht. apply Ht. reflexivity.
+Qed.
+Print Assumptions C04_eq_converged_within_property_tolerance_refuted.
+
+(* non-vacuity: min x1^2 + x2 s.t. x1 + x2 = 1 (P0 without its inequalities), exact answer x = (1/2, 1/2), v = -1 *)
+Definition P0eq : program := mkP [[2; 0]; [0; 0]] [0; 1] [[1; 1]] [1] [] [].
+Definition ans0eq : eq_answer := mkEA [1 # 2; 1 # 2] [- (1)] true.
+
+Example C04_nonvacuous_eq_wf : wf P0eq.
+Proof. constructor; simpl; try (right; reflexivity); repeat constructor; auto. Qed.
+
+Example C04_nonvacuous_eq_psd : psd P0eq.
+Proof.
+  split.
+  - intros [|a1 [|a2 [|? ?]]] [|b1 [|b2 [|? ?]]]; try discriminate. intros _ _. unfold bil. simpl. ring.
+  - intros [|a1 [|a2 [|? ?]]]; try discriminate. intros _. unfold bil. simpl. pose proof (sq_nonneg a1). lra.
+Qed.
+
+Example C04_nonvacuous_eq_system : veq (mv (eq_lmat P0eq) (ea_x ans0eq ++ ea_v ans0eq)) (eq_lvec P0eq).
+Proof. unfold veq. vm_compute. repeat constructor. Qed.
+
+Example C04_nonvacuous_eq_min : is_min P0eq [1 # 2; 1 # 2].
+Proof.
+  apply (C04_eq_kkt_sufficient P0eq [1 # 2; 1 # 2] [- (1)] C04_nonvacuous_eq_wf C04_nonvacuous_eq_psd); try reflexivity.
+  exact C04_nonvacuous_eq_system.
+Qed.
+
+Example C04_nonvacuous_eq_converged :
+  es_status (eq_solve P0eq 1 10 (1 # 100000000) ans0eq) = st_converged /\
+  es_status (eq_solve P0eq 1 10 (1 # 100000000) (mkEA [1; 0] [- (1)] true)) = 3%Z /\
+  es_status (eq_solve P0eq 1 10 (1 # 100000000) (mkEA [1; 0] [- (1)] false)) = st_failed /\
+  s_fx (es_res (eq_solve (normalizeP 2 2 1 P0eq) 2 10 (1 # 100000000) ans0eq)) == objective P0eq [1 # 2; 1 # 2].
+Proof. repeat split; vm_compute; reflexivity. Qed.
+
+(* x = 0 and x = 1: no point within the relative bound *)
+Definition Peq_inf : program := mkP [] [0] [[1]; [1]] [0; 1] [] [].
+Example C04_nonvacuous_eq_infeasible : wf Peq_inf /\
+  forall x, length x = dim Peq_inf ->
+    (1 # 100) * (1 # 100) * (sumsq (pc Peq_inf) + sumsq (pb Peq_inf)) < sumsq (m_rprim Peq_inf x).
+Proof.
+  split; [constructor; simpl; try (left; reflexivity); repeat constructor|].
+  intros [|t [|? ?]] L; try discriminate. unfold m_rprim, sumsq. simpl. pose proof (sq_nonneg (2 * t - 1)). lra.
+Qed.
+
+Example C04_nonvacuous_eq_user_rows :
+  sumsq (vdiv 2 (pc P0eq)) <= 1 /\ sumsq (vdiv 2 (pb P0eq)) <= 1 /\
+  es_status (eq_solve (normalizeP 2 2 1 P0eq) 2 10 (1 # 100000000) ans0eq) = st_converged.
+Proof. repeat split; vm_compute; try reflexivity; intro H; discriminate. Qed.
+
+(* ---- (2) make_strictly_feasible / make_x0: the default starting point ----------------------------------------------------- *)
+(* NB: the code does not solve an auxiliary program; its candidates are least-squares fits of "every slack equals y" *)
+(* whatever the inner solves answer, a returned point is strictly inside every inequality (the equalities are never looked at) *)
+Theorem C04_msf_returns_strict : forall G h rounds x, msf_run G h rounds = Some x ->
+  G <> [] /\ msf_slack G h x <> [] /\ Forall (fun t => t < 0) (msf_slack G h x).
+Proof. exact msf_returns_strict. Qed.
+Print Assumptions C04_msf_returns_strict.
+
+(* a candidate that solves its normal equations (G'G) x = G'(h - y 1) minimises |G z - (h - y 1)|_2 over all z *)
+Theorem C04_msf_least_squares : forall n G h y x z, rows_ok n G -> length h = length G -> length x = n -> length z = n ->
+  Forall (fun t => t == 0) (msf_residual n G h y x) ->
+  sumsq (vsub (mv G x) (msf_target h y)) <= sumsq (vsub (mv G z) (msf_target h y)).
+Proof. exact msf_least_squares. Qed.
+Print Assumptions C04_msf_least_squares.
+
+(* the only completeness there is: when some point has every slack EQUAL to a trial distance y > 0, that trial is accepted *)
+Theorem C04_msf_finds_equal_slack : forall n G h y x z, rows_ok n G -> G <> [] -> length h = length G -> length x = n -> length z = n ->
+  0 < y -> Forall (fun t => t == 0) (msf_residual n G h y x) ->
+  Forall (fun t => t == - y) (msf_slack G h z) -> msf_accept G h x = true.
+Proof. exact msf_finds_equal_slack. Qed.
+Print Assumptions C04_msf_finds_equal_slack.
+
+(* nothing found => make_x0 = 0 => solve_with_inequality returns `unfeasible` before the first iteration unless every h_i > 0 *)
+Theorem C04_start_from_zero : forall P mufx par, wf P -> pG P <> [] ->
+  (iter_start P mufx par (make_x0 (dim P) None) = None <-> ~ Forall (fun t => 0 < t) (ph P)).
+Proof. exact start_from_zero. Qed.
+Print Assumptions C04_start_from_zero.
+
+(* FALSE of the faithful model: "a program with a strictly feasible point gets a strictly feasible start" (and with it: "status
+   unfeasible means infeasible").  min -x s.t. x <= 0, -2x <= 2, x <= 10 (feasible set [-1, 0], optimum 0, strictly feasible at -1/2):
+   the rows sum to zero, so the least-squares candidate is x = 1 for EVERY distance y; with exact inner solves and the exact distances
+   1, 10/3, 3/10, ... all 100 trials fail, make_x0 returns 0, max(G 0 - h) = 0 >= 0 and the solver reports `unfeasible` without a
+   single iteration (reproduced on the real library, and measured on generated programs: notes/C04.md) *)
+Fixpoint blind_rounds (k : nat) (ym yM : Q) : list msf_round :=
+  match k with O => [] | S k' => mkRound ym [1] yM [1] :: blind_rounds k' (ym * (3 # 10)) (yM / (3 # 10)) end.
+Definition Pblind : program := mkP [] [- (1)] [] [] [[1]; [- (2)]; [1]] [0; 2; 10].
+
+Theorem C04_msf_strictly_feasible_program_gets_start_refuted :
+  exists P rounds z,
+    wf P /\ strict P z /\ feasible_pt P z /\
+    length rounds = 50%nat /\ forallb (msf_round_valid_b (dim P) (pG P) (ph P)) rounds = true /\ msf_ys_ok_b (3 # 10) rounds = true /\
+    msf_run (pG P) (ph P) rounds = None /\ default_x0 P rounds = zeros (dim P) /\
+    forall mufx par, iter_start P mufx par (default_x0 P rounds) = None.
+Proof.
+  exists Pblind, (blind_rounds 50 1 (10 # 3)), [- (1 # 2)].
+  split; [constructor; simpl; try (left; reflexivity); repeat constructor|].
+  split; [unfold strict; vm_compute; repeat constructor|].
+  split; [unfold feasible_pt; split; [reflexivity|split; vm_compute; repeat constructor; intro H; discriminate]|].
+  split; [reflexivity|]. split; [vm_compute; reflexivity|]. split; [vm_compute; reflexivity|].
+  split; [vm_compute; reflexivity|].
+  assert (E : default_x0 Pblind (blind_rounds 50 1 (10 # 3)) = [0]) by (vm_compute; reflexivity).
+  split; [rewrite E; reflexivity|].
+  intros mufx par. rewrite E. unfold iter_start.
+  assert (S0 : start_unfeasible_dec Pblind [0] = true) by (vm_compute; reflexivity).
+  rewrite S0. reflexivity.
+Qed.
+Print Assumptions C04_msf_strictly_feasible_program_gets_start_refuted.
+
+(* FALSE of the faithful model: "the returned point satisfies the equalities": min 0 s.t. x = 5, x <= 1 returns x = 0 *)
+Definition Pign : program := mkP [] [0] [[1]] [5] [[1]] [1].
+Theorem C04_msf_point_satisfies_equalities_refuted :
+  exists P rounds x, wf P /\ forallb (msf_round_valid_b (dim P) (pG P) (ph P)) rounds = true /\
+    msf_run (pG P) (ph P) rounds = Some x /\ ~ Forall (fun t => t == 0) (m_rprim P x).
+Proof.
+  exists Pign, [mkRound 1 [0] (10 # 3) [- (7 # 3)]], [0].
+  split; [constructor; simpl; try (left; reflexivity); repeat constructor|].
+  split; [vm_compute; reflexivity|]. split; [vm_compute; reflexivity|].
+  intros H. inversion H as [|t l Ht _]; subst. vm_compute in Ht. discriminate.
+Qed.
+Print Assumptions C04_msf_point_satisfies_equalities_refuted.
+
+(* non-vacuity: x1 <= 1, x2 <= 1, -x1 - x2 <= 1; y = 1: the normal equations give x = (-1/3, -1/3), accepted at the first trial;
+   the point (0, 0) has slacks (-1, -1, -1): every slack equals -y for y = 1 *)
+Definition Gnv : mat := [[1; 0]; [0; 1]; [- (1); - (1)]].
+Definition hnv : vec := [1; 1; 1].
+Example C04_nonvacuous_msf :
+  msf_run Gnv hnv [mkRound 1 [0; 0] (10 # 3) [0; 0]] = Some [0; 0] /\
+  all_zero_b (msf_residual 2 Gnv hnv 1 [0; 0]) = true /\
+  Forall (fun t => t == - (1)) (msf_slack Gnv hnv [0; 0]) /\ rows_ok 2 Gnv /\
+  msf_accept Gnv hnv [0; 0] = true.
+Proof.
+  split; [vm_compute; reflexivity|]. split; [vm_compute; reflexivity|].
+  split; [vm_compute; repeat constructor|]. split; [repeat constructor|vm_compute; reflexivity].
+Qed.
+
+Example C04_nonvacuous_start_from_zero :
+  iter_start P0 1 par_it (make_x0 (dim P0) None) = None /\ ~ Forall (fun t => 0 < t) (ph P0).
+Proof.
+  split; [vm_compute; reflexivity|]. intros H. inversion H as [|t l Ht _]; subst. vm_compute in Ht. discriminate.
+Qed.
+
+(* ---- (3) the Newton iteration when the LDLT answer does NOT solve its system (Eigen's LDLT fails on a singular block and
+   solver.cpp never looks at info(): notes/C04.md) ------------------------------------------------------------------- *)
+(* the checked hypothesis *)
+Theorem C04_ldlt_ok_checkable : forall P x u rd rc rp dx dv tol, lu_ok_b P x u rd rc rp dx dv tol = true ->
+  Forall (fun t => Qabs t <= tol) (sys_residual P x u rd rc rp dx dv).
+Proof. exact lu_ok_sound. Qed.
+Print Assumptions C04_ldlt_ok_checkable.
+
+(* elimination with a defect: for ANY (dx, dv), with (rt, rb) = lmat (dx, dv) - lvec and du the back-substitution, the full Newton
+   rows hold up to exactly that defect (rt = rb = 0 is C04_iter_elimination) *)
+Theorem C04_ldlt_elimination_with_defect : forall P x u rd rc rp dx dv du rt rb,
+  wf P -> length x = dim P -> length u = length (pG P) -> length rd = dim P -> length rc = length (pG P) ->
+  length rp = length (pA P) -> length dx = dim P -> length dv = length (pA P) ->
+  length rt = dim P -> length rb = length (pA P) ->
+  Forall (fun t => ~ t == 0) (gxh P x) ->
+  veq (sys_residual P x u rd rc rp dx dv) (rt ++ rb) ->
+  veq du (back_subst P x u rc dx) ->
+  veq (vadd (vadd (qmv P dx) (mtv (dim P) (pG P) du)) (mtv (dim P) (pA P) dv)) (vadd (vopp rd) rt) /\
+  veq (vsub (vopp (vmul u (mv (pG P) dx))) (vmul (gxh P x) du)) (vopp rc) /\
+  veq (mv (pA P) dx) (vadd (vopp rp) rb).
+Proof. exact ldlt_elimination_with_defect. Qed.
+Print Assumptions C04_ldlt_elimination_with_defect.
+
+(* hence the residuals after a step are (1 - s) times the old ones PLUS s times the defect: without lu_ok no contraction *)
+Theorem C04_ldlt_step_with_defect : forall P x u v rc dx dv s rt rb,
+  wf P -> length x = dim P -> length u = length (pG P) -> length v = length (pA P) -> length rc = length (pG P) ->
+  length dx = dim P -> length dv = length (pA P) -> length rt = dim P -> length rb = length (pA P) ->
+  Forall (fun t => ~ t == 0) (gxh P x) ->
+  veq (sys_residual P x u (m_rdual P x u v) rc (m_rprim P x) dx dv) (rt ++ rb) ->
+  let du := back_subst P x u rc dx in
+  veq (m_rprim P (vadd x (vscale s dx))) (vadd (vscale (1 - s) (m_rprim P x)) (vscale s rb)) /\
+  veq (m_rdual P (vadd x (vscale s dx)) (vadd u (vscale s du)) (vadd v (vscale s dv)))
+      (vadd (vscale (1 - s) (m_rdual P x u v)) (vscale s rt)).
+Proof.
+  intros P x u v rc dx dv s rt rb W Lx Lu Lv Lrc Ldx Ldv Lrt Lrb Hnz Hres du.
+  assert (Lrd : length (m_rdual P x u v) = dim P).
+  { rewrite (veq_length _ _ (m_rdual_char P x u v W)).
+    pose proof (wf_Grows P W). pose proof (wf_Arows P W). pose proof (length_qmv P x W).
+    assert (length (pc P) = dim P) by reflexivity. len. }
+  assert (Lrp : length (m_rprim P x) = length (pA P)) by (unfold m_rprim; pose proof (wf_b P W); len).
+  destruct (ldlt_elimination_with_defect P x u (m_rdual P x u v) rc (m_rprim P x) dx dv du rt rb W Lx Lu Lrd Lrc Lrp Ldx Ldv Lrt Lrb Hnz Hres (veq_refl _))
+    as [N1 [_ N3]].
+  assert (Ldu : length du = length (pG P)).
+  { unfold du. rewrite (veq_length _ _ (back_subst_veq P x u rc dx)). pose proof (length_gxh P x W). len. }
+  split; [apply rprim_with_defect; assumption|apply rdual_with_defect; assumption].
+Qed.
+Print Assumptions C04_ldlt_step_with_defect.
+
+(* FALSE of the faithful model without lu_ok: "an accepted step keeps a satisfied equality satisfied".  min x1 s.t. x1 + x2 = 1,
+   -x1 <= 0 at the feasible x = (1/2, 1/2), u = 2, v = 0 with the direction dx = (0, 4/5), dv = -1/2 (what a failed factorisation of the
+   singular block can return; the residual of the reduced system is (0.3, -0.5, 0.8)): both line-search stages accept s = 0.999, the
+   invariants still hold at the new iterate, but A x' - b = 0.7992 *)
+Definition Pld : program := mkP [] [1; 0] [[1; 1]] [1] [[- (1); 0]] [0].
+Definition par_ld : params := mkPar (999 # 1000) 10 (1 # 100) (9 # 10) (1 # 10000000000) 0 (1 # 100000000) 50 1000000.
+Definition st_ld : istate := mkI [1 # 2; 1 # 2] [2] [0] (upd Pld 1 10 [1 # 2; 1 # 2] [2] [0] (res_init Pld)) 0.
+Definition ans_ld : answer := mkAns [0; 4 # 5] [- (1 # 2)] true true.
+
+Theorem C04_ldlt_contraction_without_lu_ok_refuted :
+  exists P mufx par st ans,
+    wf P /\ inv P st /\ i_res st = upd P mufx (p_miu par) (i_x st) (i_u st) (i_v st) (res_init P) /\
+    lu_ok_b P (i_x st) (i_u st) (s_rdual (i_res st)) (s_rcent (i_res st)) (s_rprim (i_res st)) (a_dx ans) (a_dv ans) (1 # 10) = false /\
+    Forall (fun t => t == 0) (m_rprim P (i_x st)) /\
+    let k := fst (fst (iter_step P mufx par st ans)) in
+    let st' := snd (fst (iter_step P mufx par st ans)) in
+    k = 0%Z /\ inv P st' /\ ~ Forall (fun t => t == 0) (m_rprim P (i_x st')).
+Proof.
+  exists Pld, 1, par_ld, st_ld, ans_ld.
+  assert (W : wf Pld) by (constructor; simpl; try (left; reflexivity); repeat constructor).
+  assert (I : inv Pld st_ld) by (constructor; simpl; try reflexivity; repeat constructor).
+  split; [exact W|]. split; [exact I|]. split; [reflexivity|]. split; [vm_compute; reflexivity|].
+  split; [vm_compute; repeat constructor|].
+  split; [vm_compute; reflexivity|].
+  split.
+  - apply C04_iter_step_invariant; try exact W; try exact I; vm_compute; reflexivity || (intro H; discriminate).
+  - intros H. vm_compute in H. inversion H as [|t l Ht _]; subst. discriminate.
+Qed.
+Print Assumptions C04_ldlt_contraction_without_lu_ok_refuted.
+
+(* what survives WITHOUT lu_ok (the statement that matters for the property): whatever directions the solves returned, a run of the
+   loop that ends `converged` ends at a point that passes the feasibility test transferred to the caller's rows, with eta, |rdual|,
+   |rprim| below epsilon on the stored numbers -- a failed factorisation can never produce a false `converged` ... *)
+Theorem C04_ldlt_failure_never_false_converged : forall dQ dA dG P mufx par, 0 < dA -> 0 < dG -> 0 < p_eps2 par -> 0 <= p_eps par ->
+  forall fuel iters maxit st answers, i_status st <> st_converged ->
+  let r := fst (iter_run fuel iters maxit (normalizeP dQ dA dG P) mufx par st answers) in
+  i_status r = st_converged ->
+  user_feasible_b P (i_x r) (p_eps2 par * dA) (p_eps2 par * dG) = true /\ s_eta (i_res r) < p_eps par /\
+  sumsq (s_rdual (i_res r)) < p_eps par * p_eps par /\ sumsq (s_rprim (i_res r)) < p_eps par * p_eps par.
+Proof. exact ldlt_failure_never_false_converged. Qed.
+Print Assumptions C04_ldlt_failure_never_false_converged.
+
+(* ... and never on an infeasible program *)
+Theorem C04_ldlt_never_converged_if_infeasible : forall dQ dA dG P mufx par, 0 < dA -> 0 < dG -> 0 < p_eps2 par -> 0 <= p_eps par ->
+  (forall x, user_feasible_b P x (p_eps2 par * dA) (p_eps2 par * dG) = false) ->
+  forall fuel iters maxit st answers, i_status st <> st_converged ->
+  i_status (fst (iter_run fuel iters maxit (normalizeP dQ dA dG P) mufx par st answers)) <> st_converged.
+Proof. exact ldlt_never_converged_if_infeasible. Qed.
+Print Assumptions C04_ldlt_never_converged_if_infeasible.
+
+(* non-vacuity: the defect identities on the witness above (defect (0.3, -0.5 | 0.8), s = 1/2), and a run on an infeasible program *)
+Example C04_nonvacuous_ldlt_defect :
+  veq (sys_residual Pld [1 # 2; 1 # 2] [2] (m_rdual Pld [1 # 2; 1 # 2] [2] [0]) (s_rcent (i_res st_ld)) (m_rprim Pld [1 # 2; 1 # 2]) [0; 4 # 5] [- (1 # 2)])
+      ([3 # 10; - (1 # 2)] ++ [4 # 5]) /\
+  veq (m_rprim Pld (vadd [1 # 2; 1 # 2] (vscale (1 # 2) [0; 4 # 5])))
+      (vadd (vscale (1 - (1 # 2)) (m_rprim Pld [1 # 2; 1 # 2])) (vscale (1 # 2) [4 # 5])).
+Proof.
+  split; [unfold veq; vm_compute; repeat constructor|].
+  refine (proj1 (C04_ldlt_step_with_defect Pld [1 # 2; 1 # 2] [2] [0] (s_rcent (i_res st_ld)) [0; 4 # 5] [- (1 # 2)] (1 # 2) [3 # 10; - (1 # 2)] [4 # 5] _ _ _ _ _ _ _ _ _ _ _));
+    try reflexivity.
+  - constructor; simpl; try (left; reflexivity); repeat constructor.
+  - repeat constructor; vm_compute; intro H; discriminate.
+  - unfold veq. vm_compute. repeat constructor.
+Qed.
+
+Definition par_run : params := mkPar (999 # 1000) 10 (1 # 100) (9 # 10) (1 # 10) 0 (1 # 100) 50 1000000.
+Example C04_nonvacuous_ldlt_run :
+  i_status (fst (iter_run 3 0 300 (normalizeP 1 1 1 Pinf) 1 par_run (mkI [0] [1; 1] [] (res_init Pinf) 0) [mkAns [1] [] true true; mkAns [1] [] true true]))
+    <> st_converged.
+Proof.
+  apply (C04_ldlt_never_converged_if_infeasible 1 1 1 Pinf 1 par_run); try (vm_compute; reflexivity) || (vm_compute; intro H; discriminate).
+  exact C04_nonvacuous_infeasible.
+Qed.
